@@ -220,6 +220,13 @@ theorem trim_densify_second_cycle (s : List Row) (h : Dense s) :
   obtain ⟨s'', h2, hd2, ha2, hm2⟩ := trim_densify_obs s' hd1
   exact ⟨s', s'', h1, h2, hd2, fun i j => (ha2 i j).trans (ha1 i j), hm2.trans hm1⟩
 
+/-- FIXED FINDING tie: `namespaceStrictToTransitional` (applied to every part that is read) no longer
+replaces the Strict namespace URLs in the whole part — which rewrote cell text, hyperlink targets and any
+other user text holding such a URL — but only in the values of `xmlns`, `xmlns:*` and `Type` attributes.
+This is what lets the XML layer of `open_save_obs` (`x`) be the identity on character data. -/
+theorem facts_ns_ok :
+    Facts.C01.nsRewriteWholePart = false ∧ Facts.C01.nsRewriteAttrs = ["Type", "xmlns", "xmlns:*"] := by decide
+
 /-! ## the workbook: `open_save_obs` and `save_open_fixpoint` (DESIGN §4/C01) -/
 
 /-- column clause for reopened files: the preservation result for sorted, pairwise disjoint column
